@@ -56,7 +56,8 @@ def main():
     env = {"CARGO_TARGET_DIR": os.path.join(wt, "target")}
 
     def reset():
-        sh("git checkout -q --detach $(git -C /repo rev-parse HEAD) && git checkout -- . && git clean -fdq -e target", cwd=wt)
+        sh("git checkout -q --detach $(git -C /repo rev-parse HEAD) && git checkout -- . && git clean -fdq -e target; "
+           "touch crates/parser/src/generated/*", cwd=wt)  # touch: else build.rs re-runs parol (30+ min)
 
     reset()
     demo = os.path.join(d, "run_demo.sh")
